@@ -74,6 +74,10 @@ def cases(tier, seed):
     # F: the four forced / internal combinations of noise and background on a noise-free image with a constant pedestal
     for ped, opts, ph, docov in itertools.product([2.5, -3.0, 0.0], ["rms+bkg", "rms"], [(0.0, 0.0), (0.3, -0.4)], [False, True]):
         yield "F", dict(pedestal=ped, opts=opts, phase=list(ph), docov=docov)
+    # G: elongated sources lying along (or within a few degrees of) a pixel axis at LOW signal-to-noise (small islands whose
+    # bounding box is much longer than wide), noise-free
+    for ratio, pa, snr, ph in itertools.product([2.0, 2.5, 3.0], [0.0, 4.0, 86.0, 90.0, 93.0, 177.0], [12.0, 20.0, 30.0, 45.0], [(0.0, 0.0), (0.35, -0.2)]):
+        yield "G", dict(ratio=ratio, pa=pa, snr=snr, phase=list(ph))
     nreal = 8 if q else 24
     for real, mode, rmsmode, snr, s in itertools.product(range(nreal), ["white", "corr"], ["forced", "bane1", "bane2"], [50, 200], [1, 2]):
         if rmsmode != "forced" and (real % 4 != 0):
@@ -218,6 +222,28 @@ def ev_D(case, ctx):
     compare_noisefree(out, src, hdr, beam, ctx, sig, sig)
 
 
+def ev_G(case, ctx):
+    d = os.environ["VERIF_SCRATCH"]
+    cd = 10.0 / 3600
+    shape = (70, 76)
+    beam_px = (3.5, 3.5, 0.0)
+    beam = (beam_px[0] * cd, beam_px[1] * cd, beam_px[2])
+    hdr = wz.make_header("SIN", (60.0, -40.0), cd, shape, beam=beam)
+    src = skygauss.source_at_pixel(hdr, 34.0 + case["phase"][0], 37.0 + case["phase"][1], 1.0, case["ratio"] * 4.0, 4.0, ((case["pa"] + 90) % 180) - 90)
+    f = os.path.join(d, "c01g.fits")
+    scenes.write_image(f, hdr, skygauss.render(hdr, shape, [src]))
+    sig = "G:ratio=%g,pa=%g,snr=%g,phase=%r" % (case["ratio"], case["pa"], case["snr"], case["phase"])
+    ctx.count("G")
+    ctx.nontrivial(sig)
+    for docov in (False, True):
+        try:
+            out = run_finder(f, rms=1.0 / case["snr"], bkg=0.0, docov=docov)
+        except Exception as e:
+            ctx.violation("finder raised %r (%s)" % (e, sig), "raise|" + sig)
+            return
+        compare_noisefree(out, src, hdr, beam, ctx, sig + ",docov=%s" % docov, sig)
+
+
 def ev_F(case, ctx):
     """noise-free source on a constant pedestal of a few sigma: forced rms with forced / internally estimated background, and
     forced background (an image without noise has no internal noise estimate: rms internal + noise is block C)"""
@@ -345,4 +371,4 @@ def ev_C(case, ctx):
 
 
 def evaluate(clause, case, ctx):
-    dict(A=ev_A, B=ev_B, C=ev_C, D=ev_D, E=ev_E, F=ev_F)[clause](case, ctx)
+    dict(A=ev_A, B=ev_B, C=ev_C, D=ev_D, E=ev_E, F=ev_F, G=ev_G)[clause](case, ctx)
